@@ -255,7 +255,10 @@ class CallMixin:
             return hook(self, ci, args, kwargs, node)
         obj = ex.alloc(HObj(ci, {}))
         if ex.repo.is_subclass(ci, 'dict'):
-            ex.heap[obj.addr].attrs['__dictdata__'] = ex.alloc(HDict({}))
+            if ex.ghost.get('__dict_subclass_symbolic__'):
+                ex.heap[obj.addr].attrs['__dictdata__'] = ex.alloc(HSymDict(z3.EmptySet(Val), ex.fresh('dictdata', z3.ArraySort(Val, Val))))
+            else:
+                ex.heap[obj.addr].attrs['__dictdata__'] = ex.alloc(HDict({}))
         found, owner = ex.repo.lookup_method(ci, '__init__')
         if found is not None:
             self.call_function(VFunc(found), [obj] + list(args), kwargs, owner=owner, self_cls=ci, node=node)
@@ -270,6 +273,15 @@ class CallMixin:
         h = ex.heap[obj.addr]
         if base == 'dict':
             d = h.attrs['__dictdata__']
+            if isinstance(ex.heap[d.addr], HSymDict):
+                if args:
+                    src = args[0]
+                    if isinstance(src, VRef) and isinstance(ex.heap[src.addr], HSymDict):
+                        ex.heap[d.addr].dom = ex.heap[src.addr].dom
+                        ex.heap[d.addr].map = ex.heap[src.addr].map
+                    else:
+                        raise Undecided('dict(x) into a symbolic dict from ' + repr(src))
+                return
             if args:
                 self.cm_HDict_update(d, args[0])
             for k, v in kwargs.items():
